@@ -299,7 +299,7 @@ func runC18(cfg *vh.Config) error {
 		c := descgen.Generate(r.Fork(fmt.Sprintf("case%d-%d", len(cases), invalid)), prof, deps)
 		if len(cases)%10 == 3 {
 			// a valid j5s package compiled by the real compiler (the C02 generator)
-			jc, jerr := descgen.GenerateJ5S(r.Fork(fmt.Sprintf("j5s-%d-%d", len(cases), invalid)))
+			jc, jerr := descgen.GenerateJ5S(r.Fork(fmt.Sprintf("j5s-%d-%d", len(cases), invalid)), len(cases)%20 == 13)
 			if jerr != nil {
 				invalid++
 				res.Count("j5s-package-not-compiled")
